@@ -37,7 +37,8 @@ int main(void)
     LOG_STMT(FILT, SEV, thr0, thr1, a, n, c, b);
     int en1 = SEV >= MINIDX && filter_spec(FILT, thr0, thr1, SEV);
     int en2 = SEV2 < 6 && SEV2 >= MINIDX && filter_spec(FILT, thr0, thr1, SEV2);
-    u32 want = (u32)en1 + (u32)en2;
+    u32 inner = (form == 2 && en1) ? 1u : 0u;     /* FORM 2: the statement issued while the named stream is open completes first */
+    u32 want = (u32)en1 + (u32)en2 + inner;
     CHECK(g_nsink_a == want && g_nfmt == want, "C05: one record reaches the formatter and the sink exactly once iff severity >= compile-time minimum and the runtime filter expression accepts it; otherwise nothing does");
     CHECK(g_nsink_b == want, "C05: a sequence sink forwards the record once to each member");
     int order_ok = g_order_n == 2 * want; for (u32 i = 0; i < 2 * want && i < 8; ++i) if (g_order[i] != (i % 2 ? 2u : 1u)) order_ok = 0;
@@ -52,13 +53,14 @@ int main(void)
         e[el++] = c;
         if (nlazy == 2) e[el++] = 'L';
         for (u32 i = 0; i < bl; ++i) e[el++] = b[i];
-        int same = g_len[0] == el; for (u32 i = 0; same && i < el; ++i) if (g_msg[0][i] != e[i]) same = 0;
+        if (inner) CHECK(g_len[0] == 2 && g_msg[0][0] == 'i' && g_msg[0][1] == 'n' && g_sev[0] == SEV, "C05: a statement issued while a named stream object of the same severity is open is delivered unaltered");
+        int same = g_len[inner] == el; for (u32 i = 0; same && i < el; ++i) if (g_msg[inner][i] != e[i]) same = 0;
         CHECK(same, "C05: the message equals the concatenation, in order, of everything streamed into the statement (lazy pieces at the point where they were streamed)");
-        CHECK(g_sev[0] == SEV, "C05: the delivered record carries the statement's severity");
-        CHECK(with_tag ? (g_tag[0][0] == 't' && g_tag[0][1] == 'g' && g_tag[0][2] == 0) : g_tag[0][0] == 0, "C05: the delivered record carries the statement's tag");
+        CHECK(g_sev[inner] == SEV, "C05: the delivered record carries the statement's severity");
+        CHECK(with_tag ? (g_tag[inner][0] == 't' && g_tag[inner][1] == 'g' && g_tag[inner][2] == 0) : g_tag[inner][0] == 0, "C05: the delivered record carries the statement's tag");
     }
     if (en2) {
-        u32 k = en1 ? 1 : 0;
+        u32 k = (en1 ? 1 : 0) + inner;
         CHECK(g_sev[k] == SEV2 && g_len[k] == 3 && g_msg[k][0] == '2' && g_msg[k][1] == '0' && g_msg[k][2] == '!', "C05: records of one thread arrive in program order");
     }
     WITNESS_AT(en1, "statement emitted");
